@@ -40,6 +40,24 @@ class C03(Property):
                 prog = GN.all_ops_from(t, path)
                 for api in "pr":
                     res.append(("exhaustive", "N %s %s | %s" % (api, " ".join(ev), " ".join(prog))))
+                # the same questions on a tree whose every element has already been visited (all red children exist):
+                # what navigation returns must not depend on what was looked at before
+                if path:
+                    warm = GN.all_ops_from(t, path, pre=("pret:0",))
+                    res.append(("exhaustive", "N %s %s | %s" % ("pr"[len(path) % 2], " ".join(ev), " ".join(warm))))
+        # wide nodes: every sequence of up to 4 (5) children over {empty node, node with a token, token, empty token}, every
+        # child as the starting point, on a fresh and on a fully visited tree (sibling navigation has to pass over elements
+        # of the other kind whether or not they exist as red elements already)
+        import itertools
+        kinds = [["S2", "F"], ["S2", "T5:97", "F"], ["T5:98"], ["T5:"]]
+        for n in range(2, 5 if tier == "quick" else 6):
+            for combo in itertools.product(range(len(kinds)), repeat=n):
+                ev = ["S1"] + [x for k in combo for x in kinds[k]] + ["F"]
+                t = build_tree(ev)
+                for i in range(n):
+                    for pre in ((), ("pret:0",), ("chts:0",)):
+                        prog = GN.all_ops_from(t, (i,), pre=pre)
+                        res.append(("exhaustive", "N %s %s | %s" % ("pr"[(i + len(pre)) % 2], " ".join(ev), " ".join(prog))))
         rng = Rng(seed + 3)
         nrand = 1000 if tier == "quick" else 20000
         for i in range(nrand):
